@@ -102,6 +102,29 @@ pub const T7_TEMPLATES: &[(&str, &str)] = &[
     ("\"&v ", ""),
     ("%put %str(", ") '", ),
     ("%eval(%str(", ")=1)"),
+    // every literal suffix for both quote kinds (one- and two-letter, both cases), and after a
+    // string expression
+    ("'", "'b"),
+    ("'", "'dt"),
+    ("'", "'n"),
+    ("'", "'t"),
+    ("'", "'DT;"),
+    ("'", "'T"),
+    ("'", "'N"),
+    ("'", "'D"),
+    ("'", "'B"),
+    ("\"", "\"b"),
+    ("\"", "\"d"),
+    ("\"", "\"dt"),
+    ("\"", "\"t"),
+    ("\"", "\"DT"),
+    ("\"", "\"N;"),
+    ("\"&v.", "\"x"),
+    ("\"&v.", "\"n"),
+    ("\"&v.", "\"d"),
+    ("\"&v.", "\"t"),
+    ("\"&v.", "\"b"),
+    ("x='", "'dt + 1;"),
 ];
 
 pub const T7_FILLERS: &[&str] = &[
